@@ -1381,6 +1381,16 @@ func storeLike(old, nv Value) Value {
 }
 
 func (m *Machine) matchIntr(name string) func(r *Run, fr *Frame, args []Value) Value {
+	// generated protobuf enums: String() goes through the reflection-driven descriptor tables, which are not
+	// interpreted; the name is only ever used for display, the stub renders the number
+	if strings.HasPrefix(name, "(github.com/KevoDB/kevo/") && strings.Contains(name, "/proto") && strings.HasSuffix(name, ").String") && !strings.Contains(name, "*") {
+		return func(r *Run, fr *Frame, a []Value) Value {
+			if n, ok := a[0].(Num); ok && n.T == nil {
+				return Str(fmt.Sprintf("ENUM_%d", int64(n.C)))
+			}
+			return Str("ENUM")
+		}
+	}
 	if strings.HasPrefix(name, "sync/atomic.") {
 		op := name[len("sync/atomic."):]
 		switch {
